@@ -186,9 +186,9 @@ class Run:
             print(f"KNOWN-FINDING: property={self.prop} {known_keys[k]['what']} [key={k}; seen {n}x]")
 
         rc = 0
-        rep_dir = VERIF / "replays"
+        rep_dir = Path(os.environ.get("VF_REPLAY_DIR") or (VERIF / "replays"))
         for f in violations:
-            rep_dir.mkdir(exist_ok=True)
+            rep_dir.mkdir(exist_ok=True, parents=True)
             h = hashlib.sha1(canon([f["key"], f["bucket"]]).encode()).hexdigest()[:10]
             path = rep_dir / f"{self.prop}-{h}.json"
             doc = {
@@ -238,8 +238,9 @@ class Run:
             "wall_s": round(wall, 2),
             "violations": len(violations),
         }
-        evdir = VERIF / "evidence"
-        evdir.mkdir(exist_ok=True)
+        # VF_EVIDENCE_DIR is only set when the checks are pointed at a deliberately broken scratch copy
+        evdir = Path(os.environ.get("VF_EVIDENCE_DIR") or (VERIF / "evidence"))
+        evdir.mkdir(exist_ok=True, parents=True)
         (evdir / f"{self.prop}.json").write_text(json.dumps(ev, indent=1, default=_json_default))
         print(
             f"[{self.prop}/{self.tier}] evaluations={self.evaluations} "
